@@ -95,8 +95,10 @@ class RowLookupWorld:
             second = sa.select(*[sa.literal_column(str(VAL[ITEM_EXPR.get(i, i)] + UNION_OFF)) for i in items])
             stmt = sa.union_all(inner, second)
         if mode != "pos":
+            # the comment keeps statements of different cases apart in the compiled cache (equal SQL text can arise from two label
+            # styles; TextualSelect.positional is not part of the cache key)
             e = self.engine(case["ll"])
-            sql = str(stmt.compile(e, compile_kwargs={"literal_binds": True})) + " /* %s */" % mode
+            sql = str(stmt.compile(e, compile_kwargs={"literal_binds": True})) + " /* %s %s %s */" % (mode, case["style"], case["wrap"])
             if mode == "text":
                 stmt = sa.text(sql)
             elif mode == "tpos":
@@ -254,8 +256,309 @@ def rowlookup_compare(case, obs):
             cmp("run%d Result.columns(%d)" % (ri, i), o, case["cint"][i])
         if r["columns_expect"] and r["columns"] != ("val", r["columns_expect"]):
             out.append(("other", "run%d Result.columns(*keys) %r, single lookups %r" % (ri, r["columns"], r["columns_expect"])))
-        if r["mappings"][0] != "val":
-            out.append(("other", "run%d mappings(): %r" % (ri, r["mappings"])))
-        elif len(set(case["keys"])) == len(case["keys"]) and r["mappings"][1][0] != dict(zip(case["keys"], vals)):
-            out.append(("other", "run%d mappings() %r" % (ri, r["mappings"][1][0])))
+        if len(set(case["keys"])) == len(case["keys"]) and all(case["str"][k][0] >= 0 for k in case["keys"]):
+            # every result key is unambiguous: the mapping view is the dictionary key -> cell
+            if r["mappings"] != ("val", [dict(zip(case["keys"], x)) for x in r["rows"]]):
+                out.append(("other", "run%d mappings() %r" % (ri, r["mappings"])))
     return out
+
+
+# ------------------------------------------------------------------------------------------------ C09 (clause 2)
+class TypePipelineWorld:
+    """Counting types on real SQLite.  Every processing stage appends its tag to the (string) value and records
+    (tag, token) in self.log, so the loaded value IS the pipeline the value went through and the log counts the calls."""
+
+    TOKENS = ("v1", "v2", "v3")
+
+    def __init__(self):
+        import sqlalchemy as sa
+        from sqlalchemy import event
+        from sqlalchemy.pool import StaticPool
+        self.sa = sa
+        self.log = []
+        self.types = self._make_types()
+        self.engine = sa.create_engine("sqlite://", poolclass=StaticPool)
+
+        @event.listens_for(self.engine, "connect")
+        def _fn(dbapi_con, rec):
+            dbapi_con.create_function("tagbe", 1, lambda v: None if v is None else v + "|BE")
+            dbapi_con.create_function("tagce", 1, lambda v: None if v is None else v + "|CE")
+
+        self.meta = sa.MetaData()
+        self.tables, self.dtables, self.ctables, self.classes = {}, {}, {}, {}
+        from sqlalchemy.orm import registry
+        reg = registry()
+        for name, ty in self.types.items():
+            t = sa.Table("t_" + name, self.meta, sa.Column("id", sa.Integer, primary_key=True), sa.Column("c", ty))
+            self.tables[name] = t
+            self.dtables[name] = sa.Table("d_" + name, self.meta, sa.Column("id", sa.Integer, primary_key=True),
+                                          sa.Column("c", ty, default="v1"))
+            self.ctables[name] = sa.Table("c_" + name, self.meta, sa.Column("id", sa.Integer, primary_key=True),
+                                          sa.Column("c", ty, default=lambda: "v1"))
+            cls = type("O_" + name, (object,), {})
+            reg.map_imperatively(cls, t)
+            self.classes[name] = cls
+        self.meta.create_all(self.engine)
+
+    @staticmethod
+    def tok(v):
+        return v.split("|")[0] if isinstance(v, str) else v
+
+    def _make_types(self):
+        sa = self.sa
+        from sqlalchemy.types import TypeDecorator, UserDefinedType
+        log = self.log
+        tok = self.tok
+
+        class P(UserDefinedType):
+            cache_ok = True
+
+            def get_col_spec(self, **kw):
+                return "VARCHAR"
+
+            def bind_processor(self, dialect):
+                def process(v):
+                    if v is None:
+                        return None
+                    log.append(("b:P", tok(v)))
+                    return v + "|b:P"
+                return process
+
+            def result_processor(self, dialect, coltype):
+                def process(v):
+                    if v is None:
+                        return None
+                    log.append(("r:P", tok(v)))
+                    return v + "|r:P"
+                return process
+
+            def literal_processor(self, dialect):
+                def process(v):
+                    log.append(("l:P", tok(v)))
+                    return "'%s|l:P'" % v
+                return process
+
+        class XP(P):
+            def bind_expression(self, bindvalue):
+                return sa.func.tagbe(bindvalue, type_=self)
+
+            def column_expression(self, col):
+                return sa.func.tagce(col, type_=self)
+
+        def dec(name, impl_, sqlx=False):
+            class D(TypeDecorator):
+                impl = impl_
+                cache_ok = True
+
+                def process_bind_param(self, value, dialect):
+                    if value is None:
+                        return None
+                    log.append(("b:" + name, tok(value)))
+                    return value + "|b:" + name
+
+                def process_literal_param(self, value, dialect):
+                    if value is None:
+                        return None
+                    log.append(("l:" + name, tok(value)))
+                    return value + "|l:" + name
+
+                def process_result_value(self, value, dialect):
+                    if value is None:
+                        return None
+                    log.append(("r:" + name, tok(value)))
+                    return value + "|r:" + name
+
+                if sqlx:
+                    def bind_expression(self, bindvalue):
+                        return sa.func.tagbe(bindvalue, type_=self)
+
+                    def column_expression(self, col):
+                        return sa.func.tagce(col, type_=self)
+            D.__name__ = name + ("X" if sqlx else "") + "_over_" + getattr(impl_, "__name__", "t")
+            return D
+
+        D1S = dec("D1", sa.String)
+        D1P = dec("D1", P)
+        return {"D1S": D1S(), "D2D1S": dec("D2", D1S)(), "D1P": D1P(), "D2D1P": dec("D2", D1P)(), "P": P(),
+                "X1S": dec("D1", sa.String, True)(), "X2D1P": dec("D2", D1P, True)(), "D1XP": dec("D1", XP)()}
+
+    # ---------------------------------------------------------------------------------------------- one case
+    def run(self, t, w, r):
+        """-> dict(tokens: {token: dict(stored, loaded, wev, rev)}, sql=..., compile_only=bool) ; raises on machinery problems"""
+        sa = self.sa
+        from sqlalchemy.orm import Session, aliased
+        tab = self.tables[t]
+        cls = self.classes[t]
+        log = self.log
+        out = {}
+        with warnings.catch_warnings():
+            warnings.simplefilter("ignore")
+            with self.engine.begin() as conn:
+                for tb in (tab, self.dtables[t], self.ctables[t]):
+                    conn.execute(tb.delete())
+            del log[:]
+            # ------------------------------------------------------------------ write
+            wtab = tab
+            toks = ["v1"]
+            combined = None            # RETURNING rows of a statement that writes and reads at once
+            with self.engine.begin() as conn:
+                if r in ("ret_insert", "ret_many"):
+                    if r == "ret_insert":
+                        st = tab.insert().returning(tab.c.c)
+                        combined = conn.execute(st.values(id=1, c="v1")).all() if w == "values" else conn.execute(st, {"id": 1, "c": "v1"}).all()
+                    else:
+                        toks = ["v1", "v2"]
+                        combined = conn.execute(tab.insert().returning(tab.c.c), [{"id": 1, "c": "v1"}, {"id": 2, "c": "v2"}]).all()
+                elif w == "values":
+                    conn.execute(tab.insert().values(id=1, c="v1"))
+                elif w == "params":
+                    conn.execute(tab.insert(), {"id": 1, "c": "v1"})
+                elif w == "many":
+                    toks = ["v1", "v2"]
+                    conn.execute(tab.insert(), [{"id": 1, "c": "v1"}, {"id": 2, "c": "v2"}])
+                elif w == "many_ret":
+                    toks = ["v1", "v2"]
+                    conn.execute(tab.insert().returning(tab.c.id), [{"id": 1, "c": "v1"}, {"id": 2, "c": "v2"}]).all()
+                elif w == "literal":
+                    sql = str(tab.insert().values(id=1, c="v1").compile(self.engine, compile_kwargs={"literal_binds": True}))
+                    conn.exec_driver_sql(sql)
+                elif w == "default":
+                    wtab = self.dtables[t]
+                    conn.execute(wtab.insert().values(id=1))
+                elif w == "callable_default":
+                    wtab = self.ctables[t]
+                    conn.execute(wtab.insert(), [{"id": 1}])
+                elif w == "update":
+                    conn.exec_driver_sql("insert into %s (id, c) values (1, 'old')" % tab.name)
+                    conn.execute(tab.update().where(tab.c.id == 1).values(c="v1"))
+                elif w in ("orm_add", "orm_update", "orm_bulk"):
+                    pass
+                else:
+                    raise KeyError(w)
+            if w in ("orm_add", "orm_update", "orm_bulk"):
+                with Session(self.engine) as s:
+                    if w == "orm_add":
+                        o = cls()
+                        o.id, o.c = 1, "v1"
+                        s.add(o)
+                        s.commit()
+                    elif w == "orm_update":
+                        s.connection().exec_driver_sql("insert into %s (id, c) values (1, 'old')" % tab.name)
+                        o = s.get(cls, 1)
+                        del log[:]
+                        o.c = "v1"
+                        s.commit()
+                    else:
+                        toks = ["v1", "v2"]
+                        s.execute(sa.insert(cls), [{"id": 1, "c": "v1"}, {"id": 2, "c": "v2"}])
+                        s.commit()
+            wlog = list(log)
+            del log[:]
+            with self.engine.begin() as conn:
+                stored = dict((self.tok(x[0]), x[0]) for x in conn.exec_driver_sql("select c from %s" % wtab.name).all())
+                if wtab is not tab:           # the read side always works on the main table
+                    for v in stored.values():
+                        conn.exec_driver_sql("insert into %s (id, c) values (1, ?)" % tab.name, (v,))
+                # a second / third row for the compound members, written raw (already "stored" form of the same pipeline)
+                base = stored[toks[0]]
+                have = {self.tok(x[0]) for x in conn.exec_driver_sql("select c from %s" % tab.name).all()}
+                for i, tk in enumerate(("v1", "v2", "v3"), 1):
+                    if tk not in have:
+                        conn.exec_driver_sql("insert into %s (id, c) values (?, ?)" % tab.name, (i, tk + base[len(toks[0]):]))
+            del log[:]
+            # ------------------------------------------------------------------ read
+            c = tab.c.c
+
+            def leaf(i):
+                return sa.select(c).where(tab.c.id == i)
+            want = "v1"
+            loaded = None
+            compile_only = None
+            if combined is not None:
+                loaded = {self.tok(x[0]): x[0] for x in combined}
+                rlog = [e for e in wlog if e[0].startswith("r:")]
+                wlog = [e for e in wlog if not e[0].startswith("r:")]
+                want = None
+            elif r.startswith("orm_"):
+                with Session(self.engine) as s:
+                    if r == "orm_entity":
+                        loaded = {"v1": s.scalars(sa.select(cls).where(cls.id == 1)).one().c}
+                    elif r == "orm_attr":
+                        loaded = {"v1": s.execute(sa.select(cls.c).where(cls.id == 1)).scalar_one()}
+                    elif r == "orm_refresh":
+                        o = s.get(cls, 1)
+                        s.expire(o)
+                        del log[:]
+                        loaded = {"v1": o.c}
+                        o.c
+                    elif r == "orm_aliased":
+                        al = aliased(cls)
+                        loaded = {"v1": s.scalars(sa.select(al).where(al.id == 1)).one().c}
+                    elif r == "orm_subq":
+                        al = aliased(cls, sa.select(cls).where(cls.id == 1).subquery())
+                        loaded = {"v1": s.scalars(sa.select(al)).one().c}
+                    else:
+                        raise KeyError(r)
+                rlog = list(log)
+            else:
+                with self.engine.begin() as conn:
+                    if r == "sel":
+                        st = leaf(1)
+                    elif r == "label":
+                        st = sa.select(c.label("lbl")).where(tab.c.id == 1)
+                    elif r == "cached":
+                        st = leaf(1)
+                        conn.execute(leaf(1)).all()
+                        del log[:]
+                    elif r == "columns_view":
+                        st = None
+                        res = conn.execute(sa.select(tab.c.id, c).where(tab.c.id == 1))
+                        rows = res.columns("c").all()
+                        rows[0][0], rows[0].c, rows[0]._mapping["c"]
+                        loaded = {"v1": rows[0][0]}
+                    elif r == "subq":
+                        sq = sa.select(c, tab.c.id).subquery()
+                        st = sa.select(sq.c.c).where(sq.c.id == 1)
+                    elif r == "cte":
+                        sq = sa.select(c, tab.c.id).cte("w")
+                        st = sa.select(sq.c.c).where(sq.c.id == 1)
+                    elif r == "scalar":
+                        st = sa.select(leaf(1).scalar_subquery())
+                    elif r == "subq2":
+                        sq = sa.select(c.label("k"), tab.c.id).subquery()
+                        sq2 = sa.select(sq.c.k, sq.c.id).subquery()
+                        st = sa.select(sq2.c.k).where(sq2.c.id == 1)
+                    elif r in ("union0", "union1"):
+                        st = sa.union_all(leaf(1), leaf(2))
+                        want = "v1" if r == "union0" else "v2"
+                    elif r == "subq_union1":
+                        st = sa.select(sa.union_all(leaf(1), leaf(2)).subquery().c.c)
+                        want = "v2"
+                    elif r == "union1_subq":
+                        sq = sa.select(c, tab.c.id).subquery()
+                        st = sa.union_all(leaf(1), sa.select(sq.c.c).where(sq.c.id == 2))
+                        want = "v2"
+                    elif r in ("nested01", "nested10", "nested11"):
+                        # SQLite cannot parse a parenthesised compound: the rendered SQL of the leaf SELECT is the observation
+                        st = None
+                        if r == "nested01":
+                            u, want = sa.union_all(sa.union_all(leaf(1), leaf(2)), leaf(3)), "v2"
+                        elif r == "nested10":
+                            u, want = sa.union_all(leaf(1), sa.union_all(leaf(2), leaf(3))), "v2"
+                        else:
+                            u, want = sa.union_all(leaf(1), sa.union_all(leaf(2), leaf(3))), "v3"
+                        from sqlalchemy.dialects import postgresql
+                        sql = str(u.compile(dialect=postgresql.dialect(), compile_kwargs={"literal_binds": True}))
+                        compile_only = sql
+                    elif r == "ret_update":
+                        st = tab.update().where(tab.c.id == 1).values(id=1).returning(c)
+                    elif r == "ret_delete":
+                        st = tab.delete().where(tab.c.id == 1).returning(c)
+                    else:
+                        raise KeyError(r)
+                    if st is not None:
+                        rows = conn.execute(st).all()
+                        loaded = {self.tok(x[0]): x[0] for x in rows}
+                rlog = list(log)
+            out = {"want": want, "toks": toks, "stored": stored, "loaded": loaded, "wlog": wlog, "rlog": rlog, "compile_only": compile_only}
+        return out
